@@ -2,6 +2,7 @@ import Chain33Model.Model.C27
 import Chain33Model.Proofs.C27Lift
 import Chain33Model.Proofs.C27Reject
 import Chain33Model.Proofs.C27NoExist
+import Chain33Model.Proofs.C27Linked
 /-!
 C27 — Invalid blocks are rejected without side effects or poisoning.  Property theorems.
 
@@ -20,22 +21,31 @@ Vocabulary (Model/C27.lean, Proofs/C27*.lean):
 namespace C27
 
 /-- **best_chain_only_executed** (first sentence of the property): after ANY events, every block
-on the best chain other than genesis passed every validity check when it was connected — it was
-handed to `execBlock` and the verdict was "no error". -/
+`b` on the best chain other than the bottom one passed every validity check when it was connected:
+it was handed to `execBlock` in a state `s0` whose best chain was exactly the part of the chain
+below `b` (its tip = `b`'s parent) and the verdict was "no error".  (Blocks of source `self` go
+through the same `exec` here; own production — errReturn = false — is outside the model.) -/
 theorem best_chain_only_executed (P : Params) (F m hi lo : Nat) (r : Bool) (g : Blk) (evs : List Ev) :
-    ∀ b ∈ (run P (init F m hi lo r g) evs).best, b = g ∨ ∃ s0, P.exec s0 b = none := by
-  let Q : State → Prop := fun s => ∀ b ∈ s.best, b = g ∨ ∃ s0, P.exec s0 b = none
+    ∀ pre b post, (run P (init F m hi lo r g) evs).best = pre ++ b :: post → post ≠ [] →
+      ∃ s0, s0.best = post ∧ P.exec s0 b = none := by
+  let Q : State → Prop := fun s => ∀ pre b post, s.best = pre ++ b :: post → post ≠ [] →
+    ∃ s0, s0.best = post ∧ P.exec s0 b = none
   have hP : Pres P (fun _ => True) (fun _ => True) Q := {
-    frame := by intro s s' h ha; show ∀ b ∈ s'.best, _; rw [ha.2.2.2.2.1]; exact h
+    frame := by intro s s' h ha; show ∀ pre b post, s'.best = _ → _; rw [ha.2.2.2.2.1]; exact h
     conn := by
       intro s b s' h _ _ _ hc
-      obtain ⟨tip, rest, s1, ptd, _, _, hex, hs1, _, rfl⟩ := connectBlock_ok hc
+      obtain ⟨tip, rest, s1, ptd, hb0, _, hex, hs1, _, rfl⟩ := connectBlock_ok hc
       have hbest : s1.best = s.best := (saveSeq_frame hs1).2.2.2.2.2.2.2.2.2.1
-      intro x hx
-      simp only [List.mem_cons, hbest] at hx
-      rcases hx with rfl | hx
-      · exact Or.inr ⟨s, hex⟩
-      · exact h x hx
+      intro pre x post hx hne
+      have hx' : b :: s.best = pre ++ x :: post := by rw [← hbest]; exact hx
+      cases pre with
+      | nil =>
+        simp only [List.nil_append, List.cons.injEq] at hx'
+        obtain ⟨rfl, rfl⟩ := hx'
+        exact ⟨s, rfl, hex⟩
+      | cons p0 pre' =>
+        simp only [List.cons_append, List.cons.injEq] at hx'
+        exact h pre' x post hx'.2 hne
     disc := by
       intro s b s' r h _ _ hd
       unfold disconnectBlock at hd
@@ -48,26 +58,65 @@ theorem best_chain_only_executed (P : Params) (F m hi lo : Nat) (r : Bool) (g : 
           · cases hd; exact h
           · rename_i s1 hs1
             cases hd
-            intro x hx
-            exact h x (by rw [hbest]; exact List.mem_cons_of_mem _ hx)
+            intro pre x post hx hne
+            exact h (tip :: pre) x post (by rw [hbest]; simp; exact hx) hne
     store := by
       intro s b s' _ h _ _ _ _ hs
       have := sameChain_storeBlock hs
-      show ∀ b ∈ s'.best, _
+      show ∀ pre b post, s'.best = _ → _
       rw [this.1]; exact h
     addIdx := by intro s b src h _; exact h
     poolAdd := by intro s x h _; exact h
     poolDel := by intro s x h; exact h
     restart := by intro s h; exact h }
-  have h0 : QS (fun _ => True) Q (init F m hi lo r g) :=
-    ⟨by intro b hb; simp only [init, List.mem_singleton] at hb; exact Or.inl hb, seen_init F m hi lo r g trivial⟩
+  have h0 : QS (fun _ => True) Q (init F m hi lo r g) := by
+    refine ⟨?_, seen_init F m hi lo r g trivial⟩
+    intro pre b post hb hne
+    simp only [init] at hb
+    cases pre with
+    | nil => simp only [List.nil_append, List.cons.injEq] at hb; exact absurd hb.2.symm hne
+    | cons p0 pre' => simp at hb
   exact (hP.run evs _ (fun e _ => by cases e <;> trivial) h0).1
 
-/-- **reject_tip_extension_noop.**  A block that fails a validity check (in whatever state it
-would be executed) and extends the tip leaves best chain, state and indexes unchanged — from any
-source, in any node state (no reachability assumption needed) — and is not reported as accepted. -/
+/-- **best_chain_linked** ("known parent, consecutive height"): after ANY events, for EVERY
+execution verdict, the best chain — as long as it is not empty — is linked: every block names its
+predecessor's hash as parent and is exactly one higher, down to genesis.  Hypotheses: the delivered
+blocks `U` obey the header law (`Block.Hash` covers parent hash and height) and no block's hash is
+genesis' parent hash.  (The chain view can only become empty through `disconnectBlock` of the
+bottom block, which repo commit a2015e1 made unreachable in practice; the model does not prove that.) -/
+theorem best_chain_linked (P : Params) (U : List Blk) (hU : HeaderLaw U) (F m hi lo : Nat) (r : Bool)
+    (g : Blk) (hgU : g ∈ U) (hgp : ∀ x ∈ U, x.id ≠ g.parent) (evs : List Ev)
+    (hev : ∀ b src, Ev.deliver b src ∈ evs → b ∈ U) :
+    let s := run P (init F m hi lo r g) evs
+    s.best ≠ [] → Linked g s.best ∧ ∀ x ∈ s.best, x ∈ U := by
+  intro s hne
+  have h0 : QS (fun b => b ∈ U) (LInv U g) (init F m hi lo r g) := by
+    refine ⟨Or.inr ⟨rfl, ?_, ?_, ?_⟩, seen_init F m hi lo r g hgU⟩
+    · intro x hx; simp only [init, List.mem_singleton] at hx; rw [hx]; exact hgU
+    · intro x hx; simp only [init, List.mem_singleton] at hx; rw [hx]; exact hgU
+    · intro id x hx
+      simp only [init, C25.upd] at hx
+      split at hx
+      · cases hx; exact Or.inl rfl
+      · cases hx
+  have h1 := (linv_pres P hU hgp).run evs _ (fun e he => by
+    cases e with
+    | deliver b s => exact hev b s he
+    | poolAdd x => trivial
+    | poolDel x => trivial
+    | restart => trivial) h0
+  rcases h1.1 with hnil | G
+  · exact absurd hnil hne
+  · exact ⟨G.linked, G.bestU⟩
+
+/-- **reject_tip_extension_noop.**  A block that extends the tip and fails a validity check in
+the ONE state it is executed in — the node's state with the block pre-stored and indexed
+(`storeBlock`, `addIndex`); the verdict may depend on the state: a mis-signed transaction the pool
+does not vouch for, a duplicate of a transaction on the chain — leaves best chain, state and
+indexes unchanged, from any source, in any node state (no reachability assumption needed), and is
+not reported as accepted. -/
 theorem reject_tip_extension_noop (P : Params) (s : State) (b : Blk) (src : Src)
-    (hinv : ∀ s1, P.exec s1 b ≠ none)
+    (hinv : ∀ s1, storeBlock (unorphan s b) b = some s1 → P.exec (addIndex s1 b src) b ≠ none)
     (tip : Blk) (rest : List Blk) (hbest : s.best = tip :: rest) (hpar : b.parent = tip.id) :
     SameChain s (processBlock P s b src).1 ∧
     ((processBlock P s b src).2 = .orphan ∨ ∃ e, (processBlock P s b src).2 = .err e) :=
@@ -84,6 +133,27 @@ example :
     s.best = [b1, g] ∧ (∀ s1, P.exec s1 b2 ≠ none) ∧ (processBlock P s b2 .peer).2 = .err .checkStateHash := by
   refine ⟨by decide, fun s1 => by simp, by decide⟩
 
+/-- Non-vacuity with a STATE-DEPENDENT defect under the drivers' own `ofTable`: block 2 carries
+instance 1, a mis-signed copy (same hash 7) of the correctly signed instance 0.  In the state it
+is executed in the pool does not hold instance 1 itself, so the verdict is ErrSign and the
+hypothesis of `reject_tip_extension_noop` holds — although the same block would pass in a state
+whose pool held that very instance. -/
+example :
+    let T : Table := fun i => { hash := 7, sigOk := i == 0, exp := .none, feeOk := true, chainOk := true }
+    let P := ofTable T
+    let g : Blk := { id := 0, parent := 0, height := 0, diff := 1, time := 0, txs := [] }
+    let b2 : Blk := { id := 2, parent := 0, height := 1, diff := 1, time := 1, txs := [1] }
+    let s := run P (init 0 12 600 200 true g) [.poolAdd 0]
+    (∀ s1, storeBlock (unorphan s b2) b2 = some s1 → P.exec (addIndex s1 b2 .peer) b2 ≠ none) ∧
+    (processBlock P s b2 .peer).2 = .err .sign ∧ (processBlock P s b2 .peer).1.best = [g] ∧
+    P.exec { s with pool := [1] } b2 = none := by
+  refine ⟨?_, by decide, by decide, by decide⟩
+  intro s1 hs1
+  have : s1.pool = [0] := by
+    have h := sameChain_storeBlock hs1
+    rw [h.2.2.2.2.2.2.2.2]; decide
+  simp [ofTable, preExec, poolVouches, addIndex, this]
+
 /-- **reject_orphan_placement_noop.**  A block (invalid or not — nothing is executed) whose parent
 the node does not know is put into the orphan pool or refused: best chain, state and indexes do
 not move, in any node state.  What DOES change is the orphan pool, keyed by block hash — the
@@ -97,7 +167,7 @@ theorem reject_orphan_placement_noop (P : Params) (s : State) (b : Blk) (src : S
 /-- … and when its parent has arrived and the orphan's turn comes (`ProcessOrphans` hands it to
 `maybeAcceptBlock`): if it is invalid and extends the tip, an error and no change of the chain part. -/
 theorem reject_processed_orphan_noop (P : Params) (s : State) (b : Blk) (src : Src)
-    (hinv : ∀ s1, P.exec s1 b ≠ none)
+    (hinv : ∀ s1, storeBlock s b = some s1 → P.exec (addIndex s1 b src) b ≠ none)
     (tip : Blk) (rest : List Blk) (hbest : s.best = tip :: rest) (hpar : b.parent = tip.id) :
     SameChain s (maybeAcceptBlock P s b src).1 ∧ ∃ e, (maybeAcceptBlock P s b src).2 = .err e :=
   maybeAcceptBlock_reject_tip s b src hinv tip rest hbest hpar
@@ -251,11 +321,11 @@ example :
     (processBlock P s { o with txs := [1, 2], rootOk := true } .peer).2 = .err .exist := by decide
 
 /-- **no_poisoning_partial.**  Hypotheses added: the tampered body arrives through the
-fast-download path (`pid = "download"`, where `handleErrBlk` deletes the index node) and extends
-the tip, whose hash the node knows.  Then, in ANY node state in which the hash is fresh, the
+fast-download path (`pid = "download"`, where `handleErrBlk` deletes the index node), extends
+the tip, whose hash the node knows, and fails execution in the one state it is executed in.  Then, in ANY node state in which the hash is fresh, the
 genuine block delivered afterwards (from any source) is not answered `ErrBlockExist`. -/
 theorem no_poisoning_partial (P : Params) (hnx : NX P) (s : State) (t b : Blk) (src2 : Src)
-    (hid : t.id = b.id) (hinv : ∀ s1, P.exec s1 t ≠ none)
+    (hid : t.id = b.id) (hinv : ∀ s1, storeBlock s t = some s1 → P.exec (addIndex s1 t .download) t ≠ none)
     (tip : Blk) (rest : List Blk) (hbest : s.best = tip :: rest) (hpar : t.parent = tip.id)
     (hpk : blockExists s t.parent = true) (hf : Fresh b.id s) :
     (processBlock P (processBlock P s t .download).1 b src2).2 ≠ .err .exist := by
